@@ -54,6 +54,12 @@ func NewLocalImporter(opts LocalImporterOptions) *LocalImporter {
 	if opts.Extensions == nil {
 		opts.Extensions = defaultExtensions
 	}
+	// A relative source directory is the directory it names now. The root of
+	// the imports does not follow the working directory of the process, which
+	// a script can change (os.chdir) before it imports.
+	if abs, err := filepath.Abs(opts.SourceDir); err == nil {
+		opts.SourceDir = abs
+	}
 	return &LocalImporter{
 		globalNames: opts.GlobalNames,
 		codeCache:   map[string]*compiler.Code{},
